@@ -98,10 +98,21 @@ fn emit_file(path: &str, out: &mut Out) {
         let toks: Vec<&str> = l.split_whitespace().collect();
         out.usize(toks.len());
         for t in toks {
-            let x: f64 = t.parse().unwrap_or_else(|_| panic!("harness: unparsable token {} in {}", t, path));
+            // a token the reader's parser rejects is reported as NaN (never written by a case: values are finite), so that a
+            // corrupted file shows up as a difference from the model's tokens rather than as an executor failure
+            let x: f64 = t.parse().unwrap_or(f64::NAN);
             out.f(x);
         }
     }
+}
+
+// Every output goes to a file that ALREADY EXISTS and is longer than anything the cases write (a previous, larger
+// mesh written under the same name): `output` must replace it, not overwrite its head (seeded mutation C19-6 lost the
+// truncation and passed every round trip through a fresh file).
+fn stale(path: &str) {
+    let line = "9.25e0 ".repeat(16);
+    let text: String = (0..96).map(|_| format!("{}\n", line)).collect();
+    std::fs::write(path, text).unwrap_or_else(|_| panic!("harness: cannot prepare {}", path));
 }
 
 fn as_f64_1<T: Elt>(m: &mut Mesh1D<T, T>) -> &mut Mesh1D<f64, f64> {
@@ -125,6 +136,7 @@ fn step1<T: Elt>(m: &mut Mesh1D<T, T>, op: &str, a: &mut Args, out: &mut Out) {
         "trap" => { let var = a.usize(); let s = as_f64_1(m).trapezium(var); out.f(s); }
         "file" => { let prec = a.usize(); let path = a.word(); let nv2 = a.usize(); let nodes2 = a.v::<f64>();
             let mf = as_f64_1(m);
+            stale(path);
             mf.output(path, prec);
             emit_file(path, out);
             let mut m2 = Mesh1D::<f64, f64>::new(nodes2, nv2);
@@ -133,6 +145,7 @@ fn step1<T: Elt>(m: &mut Mesh1D<T, T>, op: &str, a: &mut Args, out: &mut Out) {
             let _ = std::fs::remove_file(path); }
         "reread" => { let prec = a.usize(); let path = a.word();
             let mf = as_f64_1(m);
+            stale(path);
             mf.output(path, prec);
             emit_file(path, out);
             mf.read(path);
@@ -164,9 +177,9 @@ fn step2<T: Elt>(m: &mut Mesh2D<T>, op: &str, a: &mut Args, out: &mut Out) {
         "trap" => { let var = a.usize(); let s = as_f64_2(m).trapezium(var); out.f(s); }
         "sqtrap" => { let var = a.usize(); let s = as_f64_2(m).square_trapezium(var); out.f(s); }
         "file" => { let prec = a.usize(); let path = a.word();
-            as_f64_2(m).output(path, prec); emit_file(path, out); let _ = std::fs::remove_file(path); }
+            stale(path); as_f64_2(m).output(path, prec); emit_file(path, out); let _ = std::fs::remove_file(path); }
         "filevar" => { let prec = a.usize(); let path = a.word(); let var = a.usize();
-            as_f64_2(m).output_var(path, var, prec); emit_file(path, out); let _ = std::fs::remove_file(path); }
+            stale(path); as_f64_2(m).output_var(path, var, prec); emit_file(path, out); let _ = std::fs::remove_file(path); }
         _ => panic!("harness: unknown mesh2 op {}", op),
     }
 }
